@@ -24,8 +24,10 @@
    * cumulus and swisscard recognise a booking row by an unanchored date-like expression; a row
      whose date is written differently is ignored without a diagnostic
      (findings/C13-silently-skipped-rows.md).
-   * postfinance writes a debugging line to standard output (C13_postfinance_stdout_refuted, F13).
-   * a double quote in free text ends the description early (C13_quote_breaks_header, F14).
+   * postfinance wrote a debugging line to standard output (C13_postfinance_stdout_refuted, F13;
+     repaired by ea2bee2: the code is dbg = false).
+   * a double quote in free text ended the description early (C13_quote_breaks_header_pinned, F14;
+     repaired by faa0268: C13_description_has_no_quote).
    * supercard: when both Gutschrift and Belastung are filled Gutschrift wins; postfinance takes
      the amount as written (a Lastschrift without minus sign is booked as a credit); swisscard2
      ignores the Debit/Kredit column: the sign of Betrag decides. *)
@@ -60,7 +62,7 @@ Theorem C13_swisscard2_faithful : forall acct header rows,
   acct <> tbd_account -> forallb sc2_wf_row rows = true ->
   exists ts, import_swisscard2 acct (CRec header :: map CRec rows) = MOk (map DTxn ts) /\
     Forall2 (books acct tbd_account) (map sc2_fact rows) ts /\
-    map t_desc ts = map sc2_text rows.
+    map t_desc ts = map build_desc (map sc2_text rows).
 Proof. exact swisscard2_faithful. Qed.
 Print Assumptions C13_swisscard2_faithful.
 
@@ -83,7 +85,7 @@ Theorem C13_swisscard_faithful : forall acct rows,
   acct <> tbd_account -> forallb sc_wf_row rows = true ->
   exists ts, import_swisscard acct (map CRec rows) = MOk (map DTxn ts) /\
     Forall2 (books acct tbd_account) (map sc_fact (filter sc_is_booking rows)) ts /\
-    map t_desc ts = map sc_text (filter sc_is_booking rows).
+    map t_desc ts = map build_desc (map sc_text (filter sc_is_booking rows)).
 Proof. exact swisscard_faithful. Qed.
 Print Assumptions C13_swisscard_faithful.
 
@@ -97,7 +99,7 @@ Theorem C13_supercard_faithful : forall acct header rows,
   acct <> tbd_account -> forallb sup_wf_row rows = true ->
   exists ts, import_supercard acct (CRec sup_first :: CRec header :: map CRec rows) = MOk (map DTxn ts) /\
     Forall2 (books acct tbd_account) (map sup_fact (filter sup_is_booking rows)) ts /\
-    map t_desc ts = map sup_text (filter sup_is_booking rows).
+    map t_desc ts = map build_desc (map sup_text (filter sup_is_booking rows)).
 Proof. exact supercard_faithful. Qed.
 Print Assumptions C13_supercard_faithful.
 
@@ -116,7 +118,7 @@ Theorem C13_postfinance_faithful : forall dbg acct kvs header rows d1 ds,
   forallb pf_wf_row rows = true -> pf_is_row d1 = false -> forallb (fun r => len_is r 1) ds = true ->
   exists ts, import_postfinance dbg acct (pf_statement kvs header rows d1 ds) = (MOk (map DTxn ts), pf_debug_line dbg d1) /\
     Forall2 (books acct tbd_account) (map (pf_fact cur) rows) ts /\
-    map t_desc ts = map pf_text rows.
+    map t_desc ts = map build_desc (map pf_text rows).
 Proof. exact postfinance_faithful. Qed.
 Print Assumptions C13_postfinance_faithful.
 
@@ -161,7 +163,7 @@ Theorem C13_cumulus_faithful : forall acct entries,
   acct <> tbd_account -> forallb cum_wf_entry entries = true ->
   exists ts, import_cumulus acct (map CRec (flat_map cum_records entries)) = MOk (map DTxn ts) /\
     Forall2 (books acct tbd_account) (flat_map cum_facts entries) ts /\
-    map t_desc ts = flat_map cum_texts entries.
+    map t_desc ts = map build_desc (flat_map cum_texts entries).
 Proof. exact cumulus_faithful. Qed.
 Print Assumptions C13_cumulus_faithful.
 
@@ -172,7 +174,7 @@ Print Assumptions C13_cumulus_faithful.
 Theorem C13_swisscard2_end_to_end : forall flag acct header rows,
   account_flag flag = AAcc acct -> acct <> tbd_account -> forallb sc2_wf_row rows = true ->
   exists ts, run_swisscard2 flag (CRec header :: map CRec rows) = mkRun (print_directives (map DTxn ts)) SOk /\
-    Forall2 (books acct tbd_account) (map sc2_fact rows) ts /\ map t_desc ts = map sc2_text rows.
+    Forall2 (books acct tbd_account) (map sc2_fact rows) ts /\ map t_desc ts = map build_desc (map sc2_text rows).
 Proof. exact swisscard2_run. Qed.
 Print Assumptions C13_swisscard2_end_to_end.
 
@@ -186,7 +188,7 @@ Theorem C13_cumulus_end_to_end : forall flag acct entries,
   account_flag flag = AAcc acct -> acct <> tbd_account -> forallb cum_wf_entry entries = true ->
   exists ts, run_cumulus flag (map CRec (flat_map cum_records entries)) = mkRun (print_directives (map DTxn ts)) SOk /\
     Forall2 (books acct tbd_account) (flat_map cum_facts entries) ts /\
-    map t_desc ts = flat_map cum_texts entries.
+    map t_desc ts = map build_desc (flat_map cum_texts entries).
 Proof. exact cumulus_run. Qed.
 Print Assumptions C13_cumulus_end_to_end.
 
@@ -198,7 +200,7 @@ Theorem C13_postfinance_end_to_end : forall dbg flag acct kvs header rows d1 ds,
   exists ts, run_postfinance dbg flag (pf_statement kvs header rows d1 ds) =
              mkRun (pf_debug_line dbg d1 ++ print_directives (map DTxn ts)) SOk /\
     Forall2 (books acct tbd_account) (map (pf_fact cur) rows) ts /\
-    map t_desc ts = map pf_text rows.
+    map t_desc ts = map build_desc (map pf_text rows).
 Proof. exact postfinance_run. Qed.
 Print Assumptions C13_postfinance_end_to_end.
 
@@ -206,7 +208,7 @@ Theorem C13_swisscard_end_to_end : forall flag acct rows,
   account_flag flag = AAcc acct -> acct <> tbd_account -> forallb sc_wf_row rows = true ->
   exists ts, run_swisscard flag (map CRec rows) = mkRun (print_directives (map DTxn ts)) SOk /\
     Forall2 (books acct tbd_account) (map sc_fact (filter sc_is_booking rows)) ts /\
-    map t_desc ts = map sc_text (filter sc_is_booking rows).
+    map t_desc ts = map build_desc (map sc_text (filter sc_is_booking rows)).
 Proof. exact swisscard_run. Qed.
 Print Assumptions C13_swisscard_end_to_end.
 
@@ -214,7 +216,7 @@ Theorem C13_supercard_end_to_end : forall flag acct header rows,
   account_flag flag = AAcc acct -> acct <> tbd_account -> forallb sup_wf_row rows = true ->
   exists ts, run_supercard flag (CRec sup_first :: CRec header :: map CRec rows) = mkRun (print_directives (map DTxn ts)) SOk /\
     Forall2 (books acct tbd_account) (map sup_fact (filter sup_is_booking rows)) ts /\
-    map t_desc ts = map sup_text (filter sup_is_booking rows).
+    map t_desc ts = map build_desc (map sup_text (filter sup_is_booking rows)).
 Proof. exact supercard_run. Qed.
 Print Assumptions C13_supercard_end_to_end.
 
@@ -245,19 +247,44 @@ Theorem C13_description_verbatim : forall padding t, t_targets t = None ->
 Proof. exact print_txn_header. Qed.
 Print Assumptions C13_description_verbatim.
 
-(* "whatever characters occur in free-text fields, the output stays syntactically valid" is
-   false (F14): a well-formed swisscard2 row whose Beschreibung is a double quote yields a header
-   line with three double quotes; knut's parser (parseQuotedString: everything up to the next
-   double quote, no escape) ends the description at the second one and rejects the rest of the
-   line.  Stated at the level of bytes; with the parser model (C07/C09) this becomes
-   parse (stdout) = Error. *)
-Theorem C13_quote_breaks_header :
+(* "whatever characters occur in free-text fields, the output stays syntactically valid".
+   knut's parser (parseQuotedString) reads a description as everything up to the next double
+   quote, there is no escape.  Since fix faa0268 transaction.Builder.Build maps a double quote
+   to a single quote, so the description the printer writes between the two delimiting quotes
+   contains none, whatever the free text was ([simple_txn] is how all six importers build a
+   transaction); every other byte of the text is kept. *)
+Theorem C13_description_has_no_quote : forall s, count_quotes (build_desc s) = 0%nat.
+Proof. exact build_desc_no_quote. Qed.
+Print Assumptions C13_description_has_no_quote.
+
+Theorem C13_description_kept : forall s,
+  length (build_desc s) = length s /\ (count_quotes s = 0%nat -> build_desc s = s).
+Proof. intros s. split; [apply build_desc_length|apply build_desc_id]. Qed.
+Print Assumptions C13_description_kept.
+
+Theorem C13_header_line : forall date desc credit debit com q,
+  exists rest,
+    print_directives [simple_txn date desc credit debit com q] =
+    format_date date ++ [32; 34]%Z ++ build_desc desc ++ [34; 10]%Z ++ rest.
+Proof. exact simple_txn_header. Qed.
+Print Assumptions C13_header_line.
+
+(* the row whose Beschreibung is a double quote: two quotes on the header line now ... *)
+Theorem C13_quote_row_fixed :
   exists flag header row,
     sc2_wf_row row = true /\
     ir_status (run_swisscard2 flag [CRec header; CRec row]) = SOk /\
-    count_quotes (first_line (ir_stdout (run_swisscard2 flag [CRec header; CRec row]))) = 3%nat.
+    count_quotes (first_line (ir_stdout (run_swisscard2 flag [CRec header; CRec row]))) = 2%nat.
 Proof. exists w_acct_flag, [], w_quote_row. exact quote_witness. Qed.
-Print Assumptions C13_quote_breaks_header.
+Print Assumptions C13_quote_row_fixed.
+
+(* ... and three with Build as pinned (F14): the parser ends the description at the second one
+   and rejects the rest of the line *)
+Theorem C13_quote_breaks_header_pinned :
+  exists date desc credit debit com q,
+    count_quotes (first_line (print_directives [simple_txn_pinned date desc credit debit com q])) = 3%nat.
+Proof. do 6 eexists. exact quote_witness_pinned. Qed.
+Print Assumptions C13_quote_breaks_header_pinned.
 
 (* ---------------------------------------------------------------- the hypotheses are satisfiable *)
 (* rows of the importers' golden test inputs *)
